@@ -1,77 +1,15 @@
 package main
 
 import (
-	"bytes"
-	"context"
 	"fmt"
-	"io"
-	"io/fs"
 	"os"
 	"time"
 
-	_ "github.com/wader/fq/format/all"
-	"github.com/wader/fq/pkg/interp"
+	"github.com/wader/fq/internal/verif/c07/jqrun"
 )
-
-type vfs struct{}
-
-func (vfs) Open(name string) (fs.File, error) { return nil, &fs.PathError{Op: "open", Path: name, Err: fs.ErrNotExist} }
-
-type vin struct{ interp.FileReader }
-
-func (vin) IsTerminal() bool { return false }
-func (vin) Size() (int, int) { return 120, 25 }
-
-type vout struct{ io.Writer }
-
-func (vout) Size() (int, int) { return 120, 25 }
-func (vout) IsTerminal() bool { return false }
-
-type vos struct {
-	args           []string
-	stdout, stderr *bytes.Buffer
-}
-
-func (o *vos) Platform() interp.Platform { return interp.Platform{} }
-func (o *vos) Stdin() interp.Input {
-	return vin{FileReader: interp.FileReader{R: bytes.NewBuffer(nil)}}
-}
-func (o *vos) Stdout() interp.Output                             { return vout{o.stdout} }
-func (o *vos) Stderr() interp.Output                             { return vout{o.stderr} }
-func (o *vos) InterruptChan() chan struct{}                      { return nil }
-func (o *vos) Environ() []string                                 { return []string{"NO_COLOR=1"} }
-func (o *vos) Args() []string                                    { return o.args }
-func (o *vos) ConfigDir() (string, error)                        { return "/config", nil }
-func (o *vos) FS() fs.FS                                         { return vfs{} }
-func (o *vos) History() ([]string, error)                        { return nil, nil }
-func (o *vos) Readline(opts interp.ReadlineOpts) (string, error) { return "", io.EOF }
-
-func runFq(args []string) (string, string, int) {
-	o := &vos{args: args, stdout: &bytes.Buffer{}, stderr: &bytes.Buffer{}}
-	i, err := interp.New(o, interp.DefaultRegistry)
-	if err != nil {
-		return "", err.Error(), -1
-	}
-	err = i.Main(context.Background(), o.Stdout(), "v")
-	code := 0
-	if err != nil {
-		if ex, ok := err.(interp.Exiter); ok {
-			code = ex.ExitCode()
-		} else {
-			code = -2
-		}
-	}
-	return o.stdout.String(), o.stderr.String(), code
-}
 
 func main() {
 	t := time.Now()
-	n := 20
-	for k := 0; k < n; k++ {
-		so, se, c := runFq([]string{"fq", "-nc", "--argjson", "in", "[1,2]", os.Args[1]})
-		if k == 0 {
-			fmt.Printf("%q %q %d\n", so, se, c)
-		}
-	}
-	fmt.Println(time.Since(t) / time.Duration(n))
+	r := jqrun.Fq(append([]string{"fq"}, os.Args[1:]...), nil, nil, 60*time.Second)
+	fmt.Println(len(r.Stdout), r.Exit, time.Since(t))
 }
